@@ -365,7 +365,7 @@ func TestC06(t *testing.T) {
 		Rule: "rapid draws a history (1-18 transactions, 1-3 operations) over a kitchen-sink schema: things (unique name, nullable unique alias, set index on roles, nullable fk index to targets, child store kids, plain and ref-counted links to targets), targets, deps (fk constraint + cascade delete to things), holders (restrict), owned (cascade-delete fk index to targets); ids are disjoint from all field values. " +
 			"The generator then picks an existing thing or target as victim, detaches restrict-wired referrers, deletes the victim (through the child store half of the time when it has child data) and re-creates the same id with fresh values. " +
 			"After the delete commits the whole file is walked (harness walker and boltz.ValidateDeleted, no ignore paths): the id may not occur as bucket name, key, typed key, value or typed value; after re-creation every model invariant (entities, indexes, links, back-references, child data) must hold for the fresh entity. " +
-			"Also generated: a sibling child store registered first, a unique index and a link collection on the later child store, prefix ids, AddLink / RemoveLink, links added in the deleting transaction, a system-context delete of a referenced entity. " +
+			"Also generated: a sibling child store registered first, a unique index and a link collection on the later child store, prefix ids, AddLink / RemoveLink, links added in the deleting transaction, a system-context delete of a referenced entity. Also: a store with ref-counted links only (and deletes of its linked entities), one 64-byte id per store. " +
 			"Non-trivial: the victim had >= 2 kinds of attachment (class victim-had:*) when deleted. Distinct by hash of the case JSON.",
 		Assumptions: []string{"ids are disjoint from all field values (otherwise an occurrence of the id bytes would be ambiguous)",
 			"set indexes are over string sets; an entity has child data in at most one child store of its parent"},
